@@ -22,6 +22,7 @@ from vlib import par
 from vlib.symx import Engine
 
 OB1 = "C20.referents-mode sound ordered over-approximation (symbolic f_lasti, collector model)"
+OB1B = "C20.referents mode on REAL suspended frames with their real origin (symbolic suspension index)"
 OB2 = "C20.trickery failure only warns (symbolic fault index, real frames)"
 OB3 = "C20.set_trickery_enabled sequences"
 FUNCTIONS = ["stackscope._lowlevel._contexts_active_by_referents", "stackscope._lowlevel.contexts_active_in_frame",
@@ -234,6 +235,7 @@ def fault_case(pi: int, k: Any) -> Dict[str, Any]:
     src = progs.build(*FAULT_PROGS[pi])
     assert src
     prog = dyn.compile_prog(src)
+    async_of = {mid: a for (mid, _, _, a) in dyn.with_item_map(src, prog.__code__).values()}
     state = {"n": 0, "in": False, "fired": 0}
     names = ["analyze_with_blocks", "inspect_frame", "currently_exiting_context", "replace"]
     saved = {n: getattr(_lowlevel, n) for n in names}
@@ -291,6 +293,9 @@ def fault_case(pi: int, k: Any) -> Dict[str, Any]:
                     problems.append(f"{nw} InspectionWarnings for one failure (fault in {sites[-1]})")
                 if [(id(a), b, c) for a, b, c in got] != [(id(a), b, c) for a, b, c in ref]:
                     problems.append(f"after a fault in {sites[-1]} the result {got} is not the referents answer {ref}")
+                why = truth_judgement(ob, got, async_of)
+                if why:
+                    problems.append(f"after a fault in {sites[-1]} (step {ob.step}): {why}")
         finally:
             for n in names:
                 setattr(_lowlevel, n, saved[n])
@@ -304,6 +309,91 @@ def fault_case(pi: int, k: Any) -> Dict[str, Any]:
         _lowlevel._contexts_active_by_trickery = saved_trick
         _lowlevel.set_trickery_enabled(None)
     return {"ok": not problems, "why": problems[0] if problems else None, "steps": state["n"], "sites": sites}
+
+
+def truth_judgement(ob: Any, got: List[Tuple[Any, bool, bool]], async_of: Dict[int, bool]) -> Optional[str]:
+    """The C20 property for one REAL suspension: result vs the managers' event log."""
+    import gc
+
+    ent = [(m, async_of[m.i]) for m in ob.active if m is not ob.exiting]
+    exi = (ob.exiting, async_of[ob.exiting.i]) if ob.exiting else None
+    refs = [r for r in gc.get_referents(ob.gen) if isinstance(r, types.MethodType) and r.__func__.__name__ in ("__exit__", "__aexit__")]
+    trans = [r.__self__ for r in refs if not any(r.__self__ is m for m, _ in ent)]
+    return judge_referents(got, ent, exi, trans)
+
+
+# ------------------------------------------------------------------- 1b
+def step_programs() -> List[Tuple[Dict[str, Any], str]]:
+    from vlib.bc import progs
+
+    allp = list(progs.corpus("quick", 0))
+    # F2 shapes are excluded here (they are obligation 1's known finding); every kind is represented
+    keep = [p for p in allp if p[0]["tail"] in ("plain", "nested_with", "nested_async_with", "try_finally_last", "raise", "swallow", "empty")]
+    return keep[::5]
+
+
+def real_step_case(pi: int, ri: int, s: Any) -> Dict[str, Any]:
+    """Program pi, run ri (decision script / throw point); at the suspension whose index equals the
+    symbolic s, the REAL referents implementation on the REAL frame (with its real origin) is judged."""
+    from stackscope import _lowlevel
+    from vlib.bc import dyn
+
+    desc, src = step_programs()[pi]
+    prog = dyn.compile_prog(src)
+    async_of = {mid: a for (mid, _, _, a) in dyn.with_item_map(src, prog.__code__).values()}
+    runs = dyn.all_runs(src)
+    script, throw_at = runs[ri % len(runs)]
+    out: Dict[str, Any] = {"ok": True, "nsusp": 0, "hit": False}
+
+    def on_suspend(ob: Any) -> None:
+        out["nsusp"] += 1
+        if ob.step == s:  # symbolic
+            out["hit"] = True
+            with warnings.catch_warnings(record=True) as w, contextlib.redirect_stderr(io.StringIO()):
+                warnings.simplefilter("always")
+                try:
+                    got = [(c.obj, c.is_async, c.is_exiting) for c in _lowlevel.contexts_active_in_frame(ob.frame, ob.gen, ob.next_inner)]
+                except Exception as ex:
+                    out.update(ok=False, why=f"raised {ex!r}")
+                    return
+            why = truth_judgement(ob, got, async_of)
+            if why is None and any(issubclass(x.category, _lowlevel.InspectionWarning) for x in w):
+                why = "InspectionWarning in referents mode"
+            if why:
+                out.update(ok=False, why=f"{desc['kind']} at suspension {ob.step} (lasti {ob.lasti}): {why}")
+
+    _lowlevel.set_trickery_enabled(False)
+    try:
+        dyn.drive(prog, desc["kind"], script, throw_at, on_suspend)
+    finally:
+        _lowlevel.set_trickery_enabled(None)
+    return out
+
+
+def _shard1b(sh: Dict[str, Any]) -> Dict[str, Any]:
+    from vlib.bc import dyn
+
+    cex: List[Dict[str, Any]] = []
+    samples: List[Any] = []
+    pi = sh["prog"]
+    desc, src = step_programs()[pi]
+    nruns = len(dyn.all_runs(src))
+    reached = [0]
+
+    def harness(e: Engine) -> None:
+        ri = e.choice("run", nruns)
+        s = e.int("suspension_index", 1, None)
+        r = real_step_case(pi, ri, s)
+        if r["hit"]:
+            reached[0] += 1
+        if len(samples) < 1 and r["hit"]:
+            samples.append({"program": desc, "run": ri, "suspension(one model value)": e.model().get("suspension_index")})
+        if not r["ok"] and len(cex) < 2:
+            cex.append({"step_real": True, "prog": pi, "run": ri, "s": e.model().get("suspension_index"), "why": r["why"]})
+
+    eng = Engine(max_seconds=300)
+    eng.explore(harness)
+    return par.shard_result(eng, shard=f"real-step-prog{pi}", cex=cex, samples=samples, reached=reached[0])
 
 
 def _shard2(sh: Dict[str, Any]) -> Dict[str, Any]:
@@ -413,10 +503,11 @@ def run(rep: Any, tier: str, seed: int) -> None:
         rep.counterexample(OB1, {"canary": True, "why": st}, "real analysis on a trivial suspended generator: " + st)
         return
     jobs: List[Tuple[str, Any]] = [("_shard1", c) for c in chunks(tier, seed, 24 if tier == "quick" else 48)]
+    jobs += [("_shard1b", {"prog": i}) for i in range(len(step_programs()))]
     jobs += [("_shard2", {"prog": i}) for i in range(len(FAULT_PROGS))]
     jobs += [("_shard3", {"maxlen": 3 if tier == "quick" else 4})]
     res = par.run_mixed("harness.c20", jobs)
-    for fn, ob in (("_shard1", OB1), ("_shard2", OB2), ("_shard3", OB3)):
+    for fn, ob in (("_shard1", OB1), ("_shard1b", OB1B), ("_shard2", OB2), ("_shard3", OB3)):
         for c in par.fold(rep, ob, [r for f, r in res if f == fn]):
             rep.counterexample(ob, c, c["why"])
 
@@ -427,6 +518,9 @@ def replay(case: Dict[str, Any]) -> Dict[str, Any]:
 
         st = canary.run()
         return {"status": "reproduces" if st != "ok" else "not-reproduced", "detail": st}
+    if case.get("step_real"):
+        r = real_step_case(case["prog"], case["run"], case["s"])
+        return {"status": "reproduces" if not r["ok"] else "not-reproduced", "detail": r}
     if case.get("fault"):
         r = fault_case(case["prog"], case["k"])
         return {"status": "reproduces" if not r["ok"] else "not-reproduced", "detail": r}
